@@ -23,6 +23,8 @@ structure CliCase where
   hold : Bool := false        -- the service keeps the connection open after the frames (the harness ends the tool)
   debug : Bool := false       -- --debug: the report is printed in another form (only its presence is observed)
   hosts : Bool := false       -- the address names the service by a host name that resolves to several addresses
+  closeAfter : Option Nat := none  -- the reader of stdout goes away after that many documents
+  bridge : Bool := false      -- `--bridge CMD`: the argument is the method as a whole
 
 structure CliObs where
   conns : Nat
@@ -92,14 +94,22 @@ def P_C20 (c : CliCase) (o : CliObs) : Verdict :=
   if o.rawLog then some "service-received-something-that-is-not-a-request" else
   match o.log with
   | [rq] =>
-    if rq.method != methodPart c.url then some "method-is-not-the-text-after-the-last-slash"
+    if rq.method != (if c.bridge then c.url else methodPart c.url) then some "method-is-not-the-text-after-the-last-slash"
     else if rq.parameters != some (c.args.getD .null) then some "arguments-not-passed-verbatim"
     else if (rq.more == some true) != c.more then some "more-flag-does-not-follow---more"
     else if rq.oneway.isSome || rq.upgrade.isSome then some "unexpected-request-flag"
     else
       let (reads, finalSeen) := expectedReads c.more c.frames
       let good := goodPrefix reads
-      let wantOut := good.map fun r => r.parameters.getD (.obj [])
+      let wantAll := good.map fun r => r.parameters.getD (.obj [])
+      -- a reader that goes away after n documents gets exactly the first n
+      let wantOut := match c.closeAfter with | some n => wantAll.take n | none => wantAll
+      if c.closeAfter.isSome && o.stdout == wantOut then
+        -- not every reply could be delivered (or one was an error / missing): that is not a success
+        (if o.exit == some 0 && (wantAll.length > wantOut.length || !(good.length == reads.length && finalSeen)) then
+           some "exit-status-0-although-replies-could-not-be-delivered-to-stdout"
+         else none)
+      else
       if o.stdout != wantOut then
         (if o.stdout.length < wantOut.length then some "a-successful-reply-was-not-printed"
          else if o.stdout.length > wantOut.length then some "more-documents-printed-than-successful-replies"
